@@ -2,9 +2,11 @@ package rules
 
 import (
 	"go/ast"
+	"go/constant"
 	"go/token"
 	"strings"
 
+	"jsverif/internal/absint"
 	"jsverif/internal/core"
 )
 
@@ -24,20 +26,78 @@ func c15boundary(c *core.Ctx) {
 		return
 	}
 	pos := c.P.Pos(m.states["stateEndTop"].Pos())
+	// the configuration <length mode, no annotation, empty lexeme stack, no trailing characters seen>:
+	// every guard atom is EVALUATED under it (not matched by its spelling), so that `Len() > 0`,
+	// `Len() == 0`, `!(Len() != 0)` ... all mean the same
+	term := func(v absint.Val) (int64, bool) {
+		if cv, ok := v.(absint.Const); ok && cv.V != nil {
+			if n, ok := constantInt64(cv.V); ok {
+				return n, true
+			}
+			if cv.V.Kind() == constant.Bool {
+				return b2i(constant.BoolVal(cv.V)), true
+			}
+			return 0, false
+		}
+		k := v.Key()
+		switch {
+		case k == "load:&s.lengthComputing":
+			return 1, true
+		case k == "load:&s.annotation":
+			return 0, true
+		case k == "load:&s.hasTrailingCharacters":
+			return 0, true // set only with a non-empty stack (invalid schema kept scanning)
+		case strings.HasPrefix(k, "call:(*internal/ds.Stack[lexeme.LexEvent]).Len"):
+			return 0, true
+		}
+		return 0, false
+	}
+	var eval func(v absint.Val) (int64, bool)
+	eval = func(v absint.Val) (int64, bool) {
+		if n, ok := term(v); ok {
+			return n, true
+		}
+		sy, ok := v.(absint.Sym)
+		if !ok {
+			return 0, false
+		}
+		switch sy.Op {
+		case "un":
+			if len(sy.Args) == 1 && sy.Name == "!" {
+				if x, ok := eval(sy.Args[0]); ok {
+					return b2i(x == 0), true
+				}
+			}
+		case "bin":
+			if len(sy.Args) != 2 {
+				return 0, false
+			}
+			x, okx := eval(sy.Args[0])
+			y, oky := eval(sy.Args[1])
+			if !okx || !oky {
+				return 0, false
+			}
+			switch sy.Name {
+			case "==":
+				return b2i(x == y), true
+			case "!=":
+				return b2i(x != y), true
+			case ">":
+				return b2i(x > y), true
+			case "<":
+				return b2i(x < y), true
+			case ">=":
+				return b2i(x >= y), true
+			case "<=":
+				return b2i(x <= y), true
+			}
+		}
+		return 0, false
+	}
 	consistent := func(p scanPath) bool {
 		for _, a := range p.atoms {
-			k := a.Cond.Key()
-			switch {
-			case k == "load:&s.lengthComputing" && !a.Truth:
+			if v, ok := eval(a.Cond); ok && (v != 0) != a.Truth {
 				return false
-			case k == "bin:==(0,load:&s.annotation)" && !a.Truth:
-				return false
-			case strings.HasPrefix(k, "bin:==(") && strings.HasSuffix(k, ",load:&s.annotation)") && k != "bin:==(0,load:&s.annotation)" && a.Truth:
-				return false
-			case strings.HasPrefix(k, "bin:>(call:(*internal/ds.Stack[lexeme.LexEvent]).Len") && a.Truth:
-				return false
-			case k == "load:&s.hasTrailingCharacters" && a.Truth:
-				return false // set only with a non-empty stack (invalid schema kept scanning)
 			}
 		}
 		return true
